@@ -8,6 +8,7 @@ RT = {"tspec": "RobsTrace.tla", "tcfg": "RobsTrace.cfg"}
 TT = {"tspec": "TypedTrace.tla", "tcfg": "TypedTrace.cfg"}
 XT = {"tspec": "RtcTrace.tla", "tcfg": "RtcTrace.cfg"}
 IT = {"tspec": "IoTrace.tla", "tcfg": "IoTrace.cfg"}
+WT = {"tspec": "WiringTrace.tla", "tcfg": "WiringTrace.cfg"}
 SIM = ["-simulate", "num={N}", "-depth", "8", "-seed", "{SEED}"]
 
 
@@ -140,6 +141,27 @@ CHECKS = {
                  nontrivial=[r'"ev":"t_close"']),
             life_leg("life_override", (120, 3000), {"connects": 3, "calm": 1, "cancel": 0}, require={r'"override":true': 50, r'"kind":"close"': 30},
                      nontrivial=[r'"override":true', r'"kind":"close"']),
+        ],
+    },
+    "C05": {
+        "rule": "seeded parcels with 0-6 channel halves (mpsc, oneshot, watch, broadcast, lr, bin, io; sender and receiver halves) in an option, a "
+                "vector, a map and a boxed nested parcel, a third of them padded beyond max_data_size (streamed, serialized twice), 1-3 parcels per "
+                "scenario over 1-3 connections (lr only over one), an item queued in a travelling mpsc receiver before it leaves; every received half "
+                "is used once, the counterpart kept at the origin checks the channel id of what arrives; port limits of 5 and 3 per endpoint; "
+                "connection cut; distinct = distinct event sequences; non-trivial = a parcel with at least two halves arrived",
+        "assumptions": ["every channel carries its own id in its messages, so a connection to a different channel is visible at either end",
+                        "the receiving application keeps calling recv on the base channel (a drain task), as the port requests of a value whose "
+                        "deserialization failed are only answered by the next recv call"],
+        "legs": [
+            model("Wiring_MC.cfg", spec="Wiring.tla", min_states=1000),
+            model("Wiring_DevPos.cfg", spec="Wiring.tla", expect_violation="C05_OneToOne"),
+            dict(WT, kind="trace", name="wiring", workload="wiring", n=(300, 5000), opts={}, require={r'"ev":"h_use"': 600, r'"kind":"(bin|io|lr)_': 150, r'"hops":3': 50},
+                 nontrivial=[r'"ev":"w_recv","id":\d+\}|"cids":\[\d+,\d+', r'"ev":"h_use"']),
+            dict(WT, kind="trace", name="wiring_hops3", workload="wiring", n=(150, 2000), opts={"hops": 3}, require={r'"ev":"h_use"': 300}, nontrivial=[r'"ev":"h_use"']),
+            dict(WT, kind="trace", name="wiring_ports5", workload="wiring", n=(200, 3000), opts={"max_ports": 5}, require={r'ports exhausted': 50, r'"got":-1': 100},
+                 nontrivial=[r'"got":-1']),
+            dict(WT, kind="trace", name="wiring_ports3", workload="wiring", n=(100, 1500), opts={"max_ports": 3}, require={r'ports exhausted': 50}, nontrivial=[r'"got":-1']),
+            dict(WT, kind="trace", name="wiring_cut", workload="wiring", n=(150, 2000), opts={"cut": 1}, require={r'"ev":"fault"': 100}, nontrivial=[r'"ev":"fault"']),
         ],
     },
     "C06": {
